@@ -46,11 +46,15 @@ def check_grouped(ctx: Ctx):
             n_calls += len(it.root.pipeline_calls) if out.kind == "return" else 0
         # groups that occur on one side only (a shortcut taken for an absent group must look at
         # the labels of the array it restricts)
+        # ... evaluated in the opposite group order (what one group's evaluation leaves behind -
+        # a threshold override, a shared argument dict - must not reach the groups after it)
+        g2, _ = build_groups(prog, order=("single", "merged", "plain"))
+        ev2 = build_evaluator(prog, it_name, g2)
         for labels in ONE_SIDED:
-            f, runs = run_evaluate(prog, ev, labels=labels)
+            f, runs = run_evaluate(prog, ev2, labels=labels)
             base2 = f"{f.qual}:input={it_name},labels(pred={labels['PRED']},ref={labels['REF']})"
             for out, (it, pred, ref) in runs:
-                _check_one_path(ctx, prog, f, base2, out, it, pred, ref, ev, pair_cls, len(runs) > 1, labels)
+                _check_one_path(ctx, prog, f, base2, out, it, pred, ref, ev2, pair_cls, len(runs) > 1, labels)
         # R12.1 undefined labels
         _check_undefined(ctx, prog, f, base, ev)
     if n_calls < 9:
